@@ -72,7 +72,7 @@ func (s *Spec) HonestFull() bool {
 		}
 	}
 	for _, w := range s.Webs {
-		if w.Kind == "honest" && !s.Magnet {
+		if (w.Kind == "honest" || w.Kind == "honest-slow") && !s.Magnet {
 			return true
 		}
 	}
@@ -199,6 +199,18 @@ func GenSpec(r *rand.Rand, k int, mode string) *Spec {
 			s.Webs = append(s.Webs, WebSpec{Kind: "honest"})
 		} else {
 			s.Peers = append([]PeerSpec{{Kind: "honest", Fast: true, Ext: true, Crypto: "auto", Announce: "bitfield"}}, s.Peers...)
+		}
+	}
+	if mode == "c10" && k%8 == 5 {
+		// many pieces, a slow honest web seed whose multi-piece ranges get cut by peers that hold only some of
+		// the pieces: everything the peers lack can only come from the web seed
+		np := 45 + r.Intn(60)
+		s.Layout = &gen.Layout{Name: fmt.Sprintf("w%x", r.Uint32()), PieceLen: 16384, Seed: r.Int63(), Single: true, Files: []gen.FileSpec{{Length: int64(np)*16384 - int64(r.Intn(16384))}}}
+		s.Magnet = false
+		s.Webs = []WebSpec{{Kind: "honest-slow"}}
+		s.Peers = nil
+		for i := 0; i < 1+r.Intn(2); i++ {
+			s.Peers = append(s.Peers, PeerSpec{Kind: "partial", Fast: r.Intn(2) == 0, Ext: true, Crypto: "auto", Announce: ann[r.Intn(2)], Param: r.Intn(1000)})
 		}
 	}
 	if mode == "c10" && k%8 == 3 {
@@ -334,6 +346,8 @@ func Run(spec *Spec, dir string) *Result {
 			switch kind {
 			case "honest":
 				return "ok"
+			case "honest-slow":
+				return "slow"
 			case "flaky":
 				if n%3 == 0 {
 					return "500"
